@@ -35,8 +35,12 @@ prop("C04",
                "real IPAM and the recording provider after every step, plus the reservation monitor (a reservation in force keeps "
                "its record and object, no live pod holds a reserved or de-configured address); crash sweep: every external "
                "call index of ~150 histories x 8 moves is a crash point (panic at the call, fresh plugin on the same fake "
-               "apiserver/store, compared with the model's crashAt); lock-exclusion probe over all pairs of entry points; thorough: breadth-first enumeration of all states "
-               "reachable within 8 moves over a 16-move alphabet (2 pod names, any incarnations, 2 addresses)",
+               "apiserver/store, compared with the model's crashAt); lock-exclusion probe over all pairs of entry points; the fake apiserver's pods/binding answers like the real one "
+               "(404 pod gone, 409 uid precondition, 409 already assigned) and a \"binding-answers\" profile generates repeated "
+               "binds of bound live pods (same / other node), Binding responses that are lost after being applied followed "
+               "by the scheduler's retry, and an unavailable apiserver (model: BindAnswer / BindOutcome / bindFinish, fact "
+               "bindEnqueuesReleaseOnlyOnNotFound, counter theorem repeated_bind_counter, corpus repeated-bind.ops); thorough: breadth-first enumeration of all states "
+               "reachable within 8 moves over a 17-move alphabet (incl. the begin of a graceful deletion) (2 pod names, any incarnations, 2 addresses)",
      lean_modules=["Galaxy.Props.C04", "Galaxy.Lemmas.PluginCrash", "Galaxy.Lemmas.PluginReserved"],
      factgen=["plugin"],
      drivers=["plugin"],
